@@ -5,6 +5,7 @@ package main
 
 import (
 	"fmt"
+	"os"
 	"go/token"
 	"sort"
 	"strings"
@@ -130,8 +131,8 @@ func (c *Check) expiredBatchRules(prefix string, which map[string]bool) {
 		hasNext := af.Holds(hn, true)
 		noNext := af.Holds(hn, false)
 		st := field("RequestContext", "State", X)
-		running := hasEq(af, st, "#types.RUNNING", false)
-		completed := hasEq(af, st, "#types.COMPLETED", false)
+		running := hasEq(af, st, "#types.RUNNING", false) || af.Holds(mk("==", st, c.constTerm("types.RUNNING")), true)
+		completed := hasEq(af, st, "#types.COMPLETED", false) || af.Holds(mk("==", st, c.constTerm("types.COMPLETED")), true)
 		deleted := iDelCtx >= 0
 		switch {
 		case deleted:
@@ -149,6 +150,12 @@ func (c *Check) expiredBatchRules(prefix string, which map[string]bool) {
 			nKeep++
 			// a context survives its batch expiry only if a batch is left and it is not completed
 			if !hasNext && !af.Holds(hn, true) {
+				if os.Getenv("SVCLINT_DEBUG") != "" {
+					fmt.Fprintf(os.Stderr, "DEBUG continuation hn=%s\n", hn)
+					for _, k := range af.Sorted() {
+						fmt.Fprintf(os.Stderr, "   %s\n", k)
+					}
+				}
 				add("continuation", "a context survives the expiry of its batch without the path establishing that a batch is left (Repeated ∧ (RepeatedTotal<0 ∨ BatchCounter<RepeatedTotal))", pa)
 			}
 			if completed {
